@@ -175,8 +175,8 @@ func (x *Exec) externCall(st *State, fn *ssa.Function, args []Val, pos token.Pos
 	case "os.Exit":
 		use("os.Exit does not return")
 		x.emit(st, evExit, T(0), IntLit(0), mk("Str", "sempty"))
-		st.Assume(tFalse)
-		return nil, true
+		st.Note("exit")
+		return []Outcome{{st: st, exited: true}}, true
 	}
 	// generic fallback: a pure function of package strings / strconv / unicode over basic values (string, int, bool,
 	// byte, rune, []string) with one such result is an uninterpreted function of its arguments
